@@ -131,7 +131,7 @@ def canonical_sav(text):
     return d
 
 
-def run_guesser(tdir, argv, quit_after=None, session='default_run', keep_modules=False, keys=None, queue_cap=None):
+def run_guesser(tdir, argv, quit_after=None, session='default_run', keep_modules=False, keys=None, queue_cap=None, rng=None):
     """One 'process' of pcfg_guesser in the scratch tree `tdir`."""
     import threading as real_threading
     if not keep_modules:
@@ -153,6 +153,12 @@ def run_guesser(tdir, argv, quit_after=None, session='default_run', keep_modules
                     drv.cs = cs
                     cs.time = _Clock(real_time, drv)
                     sys.modules['lib_guesser.status_report'].time = _Clock(real_time, drv)
+                if rng is not None:
+                    # the random source of the honeyword / random-walk modes (module-level `random` of both modules) is the driver's
+                    gm.random = rng
+                    hs = sys.modules.get('lib_guesser.honeyword_session')
+                    if hs is not None:
+                        hs.random = rng
                 if queue_cap is not None:
                     # PcfgQueue.max_queue_size (50000 in the code, "used for memory management") scaled down to the size of the harness rulesets
                     Q = sys.modules['lib_guesser.priority_queue'].PcfgQueue
